@@ -225,7 +225,7 @@ def run(ctx):
                     err = float(np.max(np.abs(ode.y - ex) / (atol + tol * size)))
                     # the rotation's phase error accumulates linearly in the number of periods; the decay damps errors
                     bound = 100.0 * max(5.0, abs(tf - t0) * L)
-                    # mechanism of finding P22 (repaired in /repo a91c390; reported under its own key if it returns): the first call starts far too large, its rejected attempts stay in the controller's
+                    # mechanism of finding P25 (repaired in /repo a91c390; reported under its own key if it returns): the first call starts far too large, its rejected attempts stay in the controller's
                     # memory (smoothed scale, error history entering with a negative exponent) and the first accepted step is tested
                     # against a loosened tolerance; the error is then already present after the first recorded step
                     errs_t = np.max(np.abs(ode.y - ex) / (atol + tol * size), axis=tuple(range(1, ode.y.ndim)))
